@@ -34,6 +34,7 @@ def strategy_(g):
         pert=(0.3, 0.3),
         features=("parallel", "reversed", "permute", "ids", "multifixed", "rn_lm_offsets", "quat-signs", "pure-translation-steps", "info-scale", "edge-object-twice", "flag-types"),
     )
+    case["resolve"] = g.choice([False, False, False, True])
     P = g.choice([0.0, 0.05, 1.0, 1.0, 1e3, 1e6])
     W = g.choice([0.0, 0.0, 0.0, 1e4, 1e7])  # a common offset of all coordinates (georeferenced data); only differences matter
     if W:
@@ -166,6 +167,12 @@ def check(case, ctx):
         ctx.event("discarded:rank-deficient")
         return
     g = GG.build(case)
+    if case.get("resolve"):
+        # the same measurements were solved before in another Graph (its vertices sit at the optimum now); the graph under test
+        # re-uses those edge objects with fresh Vertex objects holding this case's initial guess
+        ctx.event("edge-objects-reused-from-a-solved-graph")
+        GC.optimize_quiet(g, fix_first_pose=ff, verbose=False)
+        g = gs.Graph(g._edges, GG.build(case)._vertices)
     for i, j in case.get("alias", []):
         g._vertices[i].pose = g._vertices[j].pose  # one pose object, several vertices
     if case.get("alias"):
